@@ -65,10 +65,22 @@ func schedUPF(hb bool, readTimeout time.Duration, ready *grpc.ClientConn) (*upf,
 	u := &upf{accessIface: "access", coreIface: "core", reportNotifyChan: make(chan uint64, 1024), maxReqRetries: 1, readTimeout: readTimeout,
 		respTimeout: 2 * time.Second, enableHBTimer: hb, hbInterval: 5 * time.Second, fteidGenerator: NewFTEIDGenerator(), n4addr: c10N4,
 		accessIP: net.ParseIP(vN3Addr).To4(), coreIP: net.ParseIP(vN6Addr).To4(), datapath: b}
-	b.readQciQosMap(&Conf{})
-	b.endMarkerChan = make(chan []byte, 1024)
+	if vsched.S != nil {
+		panic("VERIF-INFRA: schedUPF must run outside the scheduler (the real SetUpfInfo talks gRPC in real time)")
+	}
+	// the real SetUpfInfo against the per-process gRPC front end (dial, clearState): whatever it initialises is
+	// initialised; afterwards every command goes to the fake directly, as a scheduling point of its own
+	srv, addr, _ := fbFrontEnd()
+	srv.attach(fb)
+	*bessIP = addr
+	b.SetUpfInfo(u, &Conf{})
 	b.client = &schedBESSClient{fb}
-	b.conn = ready
+	// IsConnected looks at the channel state: make sure it is READY before the execution starts (waiting for a condition,
+	// in real time, outside the scheduler)
+	if !vWaitChannel(b.conn, true, 60*time.Second) {
+		panic(fmt.Sprintf("VERIF-INFRA: the BESS channel of this execution did not become READY within 60 s (state %v)", b.conn.GetState()))
+	}
+	_ = ready
 	return u, fb
 }
 
@@ -116,9 +128,15 @@ func c10Run(sc c10Scenario, prefix []int, sigs []string) (*vsched.Sched, schedVe
 	var seids []uint64
 	conns := make([]*vConn, sc.NAssoc)
 	ready := fbFreshReadyConn() // outside the scheduler: node.Serve's upf.Exit closes the connection of the previous execution
+	vsched.S = nil
+	u, fb := schedUPF(hb, rt, ready)
+	defer func() {
+		if b, ok := u.datapath.(*bess); ok && b.conn != nil {
+			b.conn.Close() // upf.Exit closes it only when the node was stopped
+		}
+	}()
 	s.Run(func() {
 		fab := vnet.NewFabric()
-		u, fb := schedUPF(hb, rt, ready)
 		w.u, w.fb = u, fb
 		w.node = NewPFCPNode(u)
 		vsched.Go("harness.serve", w.node.Serve)
